@@ -19,6 +19,14 @@
 (3) the mirror of min_sentences (QueryModel.v, extracted) against the implementation: the same list of sentences in the
     same order for every rule of every case of the main run whose sets are enumerated (ties the recursion skeleton the
     depth theorems are about to the code).
+(4) factorial path enumeration of min_sentences.  On the clique of unit productions `R0: R1 | 'x'; Ri: R0 | .. | Rm (j != i)`
+    min_sentences_below walks every simple path of the rule graph (only the rules of the CURRENT path are excluded, nothing is
+    memoised or de-duplicated): the query about Ri returns the one minimal sentence [x] once per path.  No timing: the list of
+    every rule is taken whole (c17q full); an element other than [x] (or no element, or a panic) -> VIOLATION; the number of
+    copies c(m) is the measure: c(8) >= 5 c(7) >= 25 c(6) AND list = the extracted mirror's list for m <= 7 -> known class
+    K_PATHS (one KNOWN-FINDING line with the table); duplicates of any other kind or a mirror mismatch -> VIOLATION; exactly
+    one copy everywhere (a repair) -> nothing.  (Coq: C17_min_sentences_clique_copies,
+    C17_min_sentences_answer_not_duplicate_free_refuted.)
 """
 import concurrent.futures
 import random
@@ -33,6 +41,8 @@ OVERFLOW_TEXT = "Overflow occurred when calculating rule costs"
 
 K_OVF = "cost overflow of one rule panics the queries for every rule"
 K_DEPTH = "min_sentences overflows the native stack on a chain of distinct rules"
+
+K_PATHS = "min_sentences enumerates every simple path of a unit-production clique"
 
 # the known class of (2): at least this many nested calls (distinct rules along cheapest productions)
 DEPTH_CLASS_MIN = 1000
@@ -471,6 +481,110 @@ def eval_msb_mirror(ctx, rep, mexe, lines, outs, skip=()):
                                "replay_cmd": "echo '%s' | .work/target/release/c17 | .work/ocaml/c17/gvm_c17 msb" % lines[i]}, no_input=True)
                 break
     return bad, n
+
+
+# ---- (4) ------------------------------------------------------------------------------------------
+
+def clique_src(m):
+    return "%start R0\n%%\nR0: R1 | 'x';\n" + "".join(
+        "R%d: %s;\n" % (i, " | ".join("R%d" % j for j in range(m + 1) if j != i)) for i in range(1, m + 1))
+
+
+def clique_line(m, cost=1):
+    return "O %s ; x=%d" % (clique_src(m).encode().hex(), cost)
+
+
+def paths_a(n):
+    """Coq: C17/QueryClique.v paths_a — the number of simple paths R1 -> .. -> R0 is paths_a(m - 1)"""
+    return 1 if n == 0 else n * paths_a(n - 1) + 1
+
+
+def mss_sections(line, tag):
+    out = {}
+    for s in line.split(" # "):
+        w = s.split()
+        if len(w) >= 2 and w[0] == tag and w[1] not in out:
+            out[w[1]] = w[2:]
+    return out
+
+
+def eval_clique(ctx, rep, exe, mexe):
+    ms = list(range(4, 9)) if ctx.quick else list(range(2, 10))
+    mirror_max = 7 if ctx.quick else 8
+    runs = [(m, 1) for m in ms] + ([] if ctx.quick else [(m, 255) for m in (4, 6)])
+    lines = [clique_line(m, c) for m, c in runs]
+    impl = core.run_lines([exe, "full"], lines)
+    midx = [i for i, (m, _) in enumerate(runs) if m <= mirror_max and impl[i].startswith("G ")]
+    mir = dict(zip(midx, core.run_lines([mexe, "msb"], [impl[i] for i in midx]))) if midx else {}
+    bad, stats = set(), {}
+    copies, other_rules, mirror_same, dup_seen = {}, {}, {}, False
+    for i, ((m, c), line, il) in enumerate(zip(runs, lines, impl)):
+        base = {"family": "clique of unit productions, m = %d" % m, "grammar": clique_src(m), "costs_by_token_name": {"x": c},
+                "replay_cmd": "cd /verif && python3 -c \"from checks import c17_queries as q; print(q.clique_line(%d, %d))\" | "
+                              ".work/target/release/c17q full | tee /dev/stderr | .work/ocaml/c17/gvm_c17 msb" % (m, c)}
+        ctx.case("clique " + line, True, {"family": "clique", "m": m, "cost_of_x": c})
+        if not il.startswith("G "):
+            bad.add("clique-values")
+            rep.violation(dict(base, what="the process asking min_sentences on the clique died, hung or rejected the grammar", impl=il[:300]))
+            continue
+        g = cfg.DGram([s.split() for s in il.split(" # ")])
+        xt = [t for t, n in g.tnames.items() if n == "x"]
+        rid = {n: r for r, n in g.rnames.items()}
+        sec = mss_sections(il, "MSS")
+        if len(xt) != 1 or any("R%d" % j not in rid for j in range(m + 1)) or len(sec) != g.nrules:
+            bad.add("clique-values")
+            rep.violation(dict(base, what="harness output incomplete for the clique", impl=il[:300]), no_input=True)
+            continue
+        x = str(xt[0])
+        cnt = {}
+        for r, v in sec.items():
+            n = len(v) // 2
+            # every element must be the one minimal sentence: the list is `; x` n times, n >= 1
+            if n == 0 or v != [";", x] * n:
+                bad.add("clique-values")
+                rep.violation(dict(base, rule="%s(%s)" % (g.rnames.get(int(r), "?"), r), query="min_sentences",
+                                   what="the answer is not a non-empty list of copies of the one minimal sentence ['x'] "
+                                        "(the grammar derives exactly that sentence from every rule)", impl=" ".join(v)[:300]))
+                break
+            cnt[r] = n
+        else:
+            per_i = sorted(set(cnt[str(rid["R%d" % j])] for j in range(1, m + 1)))
+            if c == 1:
+                copies[m] = per_i[-1]
+                other_rules[m] = {"^": cnt[str(g.prods[g.start_prod][0])], "R0": cnt[str(rid["R0"])], "R1..Rm": per_i}
+            dup_seen |= any(n != 1 for n in cnt.values())
+            if i in mir:
+                mod = mss_sections(mir[i], "MSB")
+                mirror_same[(m, c)] = mir[i].startswith("MSBS") and all(mod.get(r) == v for r, v in sec.items())
+    stats["clique_copies_of_the_one_minimal_sentence_by_m (R1..Rm)"] = {str(m): n for m, n in sorted(copies.items())}
+    stats["clique_copies_other_rules_by_m"] = {str(m): v for m, v in sorted(other_rules.items())}
+    stats["clique_simple_paths_by_m (Coq paths_a (m-1))"] = {str(m): paths_a(m - 1) for m in ms}
+    stats["clique_lists_equal_to_the_mirror"] = sorted("m=%d x=%d" % k for k, v in mirror_same.items() if v)
+    known = []
+    if bad or not dup_seen:
+        return bad, known, stats       # wrong elements are reported above; exactly one copy everywhere: the repaired behaviour
+    table = "copies of the one minimal sentence for m=%d..%d: %s" % (min(copies), max(copies), ", ".join(str(copies[m]) for m in sorted(copies)))
+    base = {"family": "clique of unit productions R0: R1 | 'x'; Ri: R0 | .. | Rm (every j != i), unit costs", "grammar_m_4": clique_src(4),
+            "copies_by_m": stats["clique_copies_of_the_one_minimal_sentence_by_m (R1..Rm)"], "other_rules": stats["clique_copies_other_rules_by_m"],
+            "replay_cmd": "cd /verif && python3 -c \"from checks import c17_queries as q; print(q.clique_line(8))\" | .work/target/release/c17q full | tr '#' '\\n' | awk '/^ MSS/{print $2, (NF-2)/2}'"}
+    if not all(mirror_same.values()) or not mirror_same:
+        bad.add("clique-mirror")
+        rep.violation(dict(base, what="min_sentences returns duplicates on the clique and its list differs from the mirror's (C17/QueryModel.v "
+                           "min_sentences_m): the witnesses C17_min_sentences_clique_copies are no longer about this code",
+                           differs_for=sorted("m=%d x=%d" % k for k, v in mirror_same.items() if not v)), no_input=True)
+    elif all(k in copies for k in (6, 7, 8)) and copies[8] >= 5 * copies[7] and copies[7] >= 5 * copies[6]:
+        bad.add("min_sentences-paths")
+        known.append(table)
+        rep.violation(dict(base, what="min_sentences returns the single minimal sentence once per simple path of the rule graph: the number of "
+                           "copies (and of calls) grows factorially with the number of mutually recursive unit rules (x m per extra rule: "
+                           "'all these queries terminate' fails in practice from m ~ 14); the elements themselves are right",
+                           authority="C17_min_sentences_clique_copies (the mirror's lists for m = 2..7), "
+                                     "C17_min_sentences_answer_not_duplicate_free_refuted; list = mirror's list in order for m <= %d" % mirror_max), key=K_PATHS)
+    else:
+        bad.add("clique-duplicates")
+        rep.violation(dict(base, what="min_sentences returns duplicates on the clique, but not with the growth of the recorded class "
+                           "(c(8) >= 5 c(7) >= 25 c(6))"))
+    return bad, known, stats
 
 
 def patch_note(ctx, key, text):
